@@ -8,7 +8,18 @@
 (*                     commitment; w = 1 / 2: the counterparty's current /   *)
 (*                     pending not-yet-revoked commitment confirms and p     *)
 (*                     resolves it.  Computed by the executor on a channel   *)
-(*                     RELOADED FROM THE DATABASE.                           *)
+(*                     RELOADED FROM THE DATABASE - either by calling        *)
+(*                     lnwallet directly (via = 0) or, for what confirms on  *)
+(*                     chain, through contractcourt's real chainWatcher       *)
+(*                     (via = 1: handleCommitSpend -> handleKnownLocalState / *)
+(*                     handleKnownRemoteState -> dispatch...ForceClose; the   *)
+(*                     watcher classifies the transaction, picks the stored   *)
+(*                     commitment and the commit point itself, and what is    *)
+(*                     judged is the summary it hands to its subscribers).    *)
+(*                     Every line also carries p's ANCHOR resolution: the one *)
+(*                     inside the summary (anc) and the one                   *)
+(*                     NewAnchorResolutions() returns before confirmation     *)
+(*                     (apre: .Local / .Remote / .RemotePending).             *)
 (*   Justice(p, h)     the counterparty broadcasts its REVOKED commitment of *)
 (*                     height h and p punishes it from its revocation log.   *)
 (*                                                                           *)
@@ -152,6 +163,35 @@ CCClaim == CCGood =>
   /\ \A r \in Range(Last.res) :
         r.claim = r.amt - (IF CCown THEN SecondFee(CCc.fee, r.dir = 0) ELSE 0)
   /\ Last.claim = CCClaimSpec
+
+\* "the node holds valid spends for all it owns" includes its ANCHOR on anchor-family channel types
+\* (commitment.go CreateCommitTx: a party's anchor exists iff it has a balance output or the
+\* transaction carries at least one HTLC output) - on its own commitment, on the counterparty's
+\* current and on the counterparty's pending one alike, both in the close summary and in the
+\* pre-confirmation set NewAnchorResolutions() hands to the sweeper for CPFP.  The resolution must
+\* name an output of THAT transaction that no other resolution claims, describe it exactly
+\* (330 sat, same script) and produce a spend the script interpreter accepts.
+AnchorSat == 330
+HasMyAnchor(c, p, own) == HasAnchors /\ (BalOut(c, p, own, TRUE) > 0 \/ NHtlcOut(c, p, own) > 0)
+AncOK(a, want) ==
+  /\ a.present = (IF want THEN 1 ELSE 0)
+  /\ IF want
+     THEN /\ a.ok = 1 /\ a.desc = 1 /\ a.val = AnchorSat
+          /\ a.idx \notin ({r.idx : r \in Range(Last.res)}
+                             \cup (IF Last.self.present = 1 THEN {Last.self.idx} ELSE {}))
+     ELSE a.ok = -1
+CCAnchor == CCGood =>
+  /\ AncOK(Last.anc, HasMyAnchor(CCc, CCp, CCown))
+  /\ AncOK(Last.apre, HasMyAnchor(CCc, CCp, CCown))
+  /\ Last.anc.idx = Last.apre.idx
+
+\* via = 1: the chain watcher took the confirmed transaction for exactly the commitment it is (its
+\* ConfCommitKey: 0 our own, 1 the counterparty's current, 2 its pending one) and hands the channel
+\* arbitrator the HTLC set of that commitment - all of its HTLCs, trimmed ones included
+CCWatcher == (IsCC /\ Last.via = 1) =>
+  /\ Last.err = ""
+  /\ Last.ckey = Last.x
+  /\ CCGood => Last.nset = Cardinality(CCc.outs) + Cardinality(CCc.ins)
 
 \* Environment fault: the signer fails once, at the k-th signature of a force close (any k).  The node may
 \* report the failure - the caller retries - but it must never return a summary that silently lacks the
